@@ -18,9 +18,9 @@ TRACE_CFG = "Trace_NFS41.cfg"
 
 # design-check configurations per property (quick tier, added in the thorough tier)
 MC = {
-    "C18": (["MC_NFS41_C18.cfg"], ["MC_NFS41_C18_lease.cfg"]),
+    "C18": (["MC_NFS41_C18.cfg"], ["MC_NFS41_C18_lease.cfg", "MC_NFS41_C20_owners.cfg"]),
     "C19": (["MC_NFS41_C19.cfg"], []),
-    "C20": (["MC_NFS41_C20.cfg"], ["MC_NFS41_C20_full.cfg"]),
+    "C20": (["MC_NFS41_C20.cfg", "MC_NFS41_C20_owners.cfg"], ["MC_NFS41_C20_full.cfg"]),
 }
 
 RULE = ("TLC explores NFS41.tla exhaustively for small constants (2 clients, open-/lock-owners, files, "
